@@ -169,13 +169,18 @@ def make_dir(base, name, lengths, rng):
     p = os.path.join(base.encode(), name.encode()); os.mkdir(p)
     used = set()
     for i, ln in enumerate(lengths):
-        nm = name_of_len(rng, ln, used); q = os.path.join(p, nm)
+        if isinstance(ln, bytes): nm = ln; used.add(nm)
+        else: nm = name_of_len(rng, ln, used)
+        q = os.path.join(p, nm)
         k = i % 11
         if k == 3: os.mkdir(q)
         elif k == 5: os.symlink(b'target', q)
         elif k == 7: os.mkfifo(q)
         else: os.close(os.open(q, os.O_CREAT | os.O_WRONLY, 0o644))
     return p
+
+# names that start with dots (or are made of dots and one other byte) but are neither "." nor "..": ordinary entries
+DOTNAMES = [b'.a', b'..a', b'...', b'..data', b'....', b'. ', b'.. ', b'a.', b'.a.', b'a..', b'..\xc3\xa9', b'.-']
 
 def dir_plans(rng, tier):
     """name -> list of name lengths"""
@@ -184,12 +189,18 @@ def dir_plans(rng, tier):
         'e0': [], 'e1': [1], 'e1b': [255], 'e2': [8, 9], 'e3': [16, 1, 17],
         'e9': [rng.randint(1, 255) for _ in range(9)],
         'r8': [3, 12, 5, 14, 7, 8, 9, 18, 1, 10, 6, 11],          # every residue of the name length mod 8
+        'dd': list(DOTNAMES),                                     # ONLY names that start with / consist of dots
+        'd1': [b'..a'],                                           # such a name alone in a directory
 
         'e40': [1, 2, 3, 4, 5, 6, 7, 8, 9, 15, 16, 17, 23, 24, 25, 247, 248, 249, 250, 251, 252, 253, 254, 255] + [rng.randint(2, 60) for _ in range(16)],
         'e300': all_len + [rng.randint(2, 40) for _ in range(45)],
         'e3000': [1, 255, 254, 129, 64, 65, 66, 67, 68, 69, 70, 71] + [rng.randint(3, 12) for _ in range(3000 - 12)],
     }
     for k in plans: rng.shuffle(plans[k])
+    plans['e9'] = [b'..data'] + plans['e9'] + [b'...']
+    plans['e40'] = [b'.a', b'..a'] + plans['e40'] + [b'....', b'.. ']
+    plans['e300'] = plans['e300'] + [b'..x', b'...y']
+    plans['r8'] = plans['r8'] + [b'..b']
     return plans
 
 # ------------------------------------------------------------------ Coq terms
@@ -519,7 +530,7 @@ def build_trees(rng, tier, findings, broken):
         shutil.rmtree(root, ignore_errors=True); os.makedirs(root)
         dcs = []
         for name, lengths in plans.items():
-            if fsname == 'tmpfs' and name in ('e3000', 'e300', 'e9'): continue
+            if fsname == 'tmpfs' and name in ('e3000', 'e300', 'e9', 'r8'): continue
             p = make_dir(root, name, lengths, rng)
             dc = DirCase('%s/%s' % (fsname, name), p, raw_getdents(p))
             dc.name = name
@@ -561,6 +572,11 @@ def build_fuse_tree(rng, bindir, broken):
     for i in range(60): add('n2', name_of_len(rng, 255 if i in (7, 41) else rng.randint(1, 60), used), True)
     add('n2', b'.', True, 4); add('n2', b'..', True, 4)
     lines.append('n3')                                        # empty directory without even dots
+    # nd: dot-names first, adjacent to "." / ".." and to each other, and last; no: ONLY dot-names (not even "." ".."); n1: one alone
+    add('nd', b'..a', True); add('nd', b'.', False, 4); add('nd', b'...', True); add('nd', b'..data', False); add('nd', b'..', True, 4)
+    add('nd', name_of_len(rng, 6, used), True); add('nd', b'....', True); add('nd', b'.a', False); add('nd', name_of_len(rng, 11, used), True); add('nd', b'. ', True)
+    for i, nm in enumerate(DOTNAMES): add('no', nm, i % 2 == 0)
+    add('na', b'.', True, 4); add('na', b'..', True, 4); add('na', b'..data', True)
     # s0: served with at most two records per host READDIR: getdents64 returns short batches (fewer than would fit)
     for i, ln in enumerate([4, None, 9, 17, 2, 30, None, 6, 11, 5, 8, 13, 3, 21, 7]):
         if ln is None: add('s0', b'.' if i == 1 else b'..', i % 2 == 0, 4)
@@ -572,7 +588,7 @@ def build_fuse_tree(rng, bindir, broken):
     if line.strip() != 'mounted':
         broken.append({'kind': 'harness', 'what': 'cookie fs could not be mounted (FUSE unavailable?)'}); return None
     dcs = []
-    for name in ('n0', 'n1', 'n2', 'n3', 's0'):
+    for name in ('n0', 'n1', 'n2', 'n3', 's0', 'nd', 'no', 'na'):
         path = os.path.join(mnt, name).encode()
         dc = DirCase('fusefs/%s' % name, path, raw_getdents(path)); dc.name = name
         dc.short_batches = name.startswith('s')
@@ -775,7 +791,7 @@ def run_check(tier, seed):
                             exprs.append((dn, model_exprs(dn, noopendir, fhs, hist, len(dc.oracle) <= 12, kind == 'passthrough')))
                             expr_meta.append({'dir': dc.label, 'config': cfgdesc, 'pattern': 'go-back after another offset on one handle',
                                               'requests': [{k: r[k] for k in ('fh', 'size', 'off', 'plus')} for r in hist][:60], 'n_requests': len(hist)})
-                        if dc.name == 'r8' and kind == 'passthrough':
+                        if dc.name in ('r8', 'dd', 'd1', 'nd', 'no', 'na') and kind == 'passthrough' and not (quick and fsname == 'tmpfs' and dc.name != 'dd'):
                             # deterministic class: every size (all residues mod 8) around the entry boundaries
                             for plus in (False, True):
                                 if not noopendir:
@@ -785,7 +801,7 @@ def run_check(tier, seed):
                                         err, fh = cl.opendir(nodeid)
                                         if err: raise FuseError('opendir -> %d' % err)
                                         fhs.append(fh)
-                                hist = sweep_history(cl, dc, nodeid, fhs[0], plus, plus_refs)
+                                hist = sweep_history(cl, dc, nodeid, fhs[0], plus, plus_refs, reduced=(dc.name != 'r8'))
                                 evals += len(hist)
                                 findings += judge_history(dc, hist, [], cfgdesc)
                                 dn = 'dir_%s_%s' % (fsname, dc.name); headers[dn] = dc
